@@ -1,5 +1,5 @@
 (* C07 — unspentcsvdump lists exactly the unspent, address-bearing outputs of the range. Pinned statements only: each theorem is closed by `exact` of a lemma proved in theories/. *)
-From RBP Require Import Bytes Hashes Wire Block BlockP Render Index IndexP Model ModelP StoreP CsvP CbP AddrClean.
+From RBP Require Import Bytes Hashes Wire Block BlockP Render Index IndexP Model ModelP StoreP CsvP CbP AddrClean RowsP.
 From RBP Require Drive Merkle Utxo Stats OutProto Reader Published Misc.
 
 Theorem C07_final_is_last_touch :
@@ -38,6 +38,14 @@ Theorem C07_address_never_contains_separator :
   forall (c : coin) (script : bytes) (a : list N), e_addr (eval_script c script) = Some a -> clean a.
 Proof. exact address_clean. Qed.
 
+Theorem C07_listed_row_splits_into_its_fields :
+  forall (c : coin) (blocks : list (N * block)) (k : bytes) (h v : N) (a : list N), Utxo.lookup bytes uval beqb k (utxo_final (map (fun hb : N * block => (fst hb, eval_block c (snd hb))) blocks)) = Some (h, v, a) -> fields_of_row (unspent_row (k, (h, v, a))) = [hash_str (firstn 32 k); dec (le_decode (skipn 32 k)); dec h; dec v; a] /\ (exists (t : rawtx) (j : N), k = ukey (txid t) j /\ firstn 32 k = txid t).
+Proof. exact listed_row_fields. Qed.
+
+Theorem C07_row_fields :
+  forall (k : list N) (h v : N) (a : list N), wfb (firstn 32 k) = true -> clean a -> fields_of_row (unspent_row (k, (h, v, a))) = [hash_str (firstn 32 k); dec (le_decode (skipn 32 k)); dec h; dec v; a].
+Proof. exact unspent_row_fields. Qed.
+
 Print Assumptions C07_final_is_last_touch.
 Print Assumptions C07_nothing_listed_twice.
 Print Assumptions C07_listed_iff.
@@ -47,3 +55,5 @@ Print Assumptions C07_key_decode.
 Print Assumptions C07_key_injective.
 Print Assumptions C07_generic_last_touch.
 Print Assumptions C07_address_never_contains_separator.
+Print Assumptions C07_listed_row_splits_into_its_fields.
+Print Assumptions C07_row_fields.
